@@ -165,8 +165,8 @@ PL_NOTE = " The abstract protocol P/Log.v (superposed on P/Election.v) is tied t
 
 SPECS["C16"] = node_spec(
     "C16", ["hard", "timers", "msgs.vote"], "prevote",
-    "Props/C16.v (62 pinned statements, every node state and every message unless said otherwise): handling a pre-vote request never changes term or vote (all paths), with the four paths given exactly (lease drop; lower-term explicit reject; grant = one response, no vote recorded, election timer not reset, role and leader untouched; reject + commit fast-forward); the pre-vote campaign leaves term and vote unchanged and queues exactly one MsgRequestPreVote (term+1, last index/term) per other voter; a COMPLETE case analysis of when the term changes over one step for every role and message (unchanged | raised by one by the node itself in three listed situations | a higher message term adopted, for every type except pre-vote requests, granted pre-vote responses and lease-dropped requests), read off for a PreCandidate, and in trace form: over any sequence of steps and ticks that are 'quiet' in the states they meet (no adoptable higher term, no transfer, no pre-vote quorum) the term never changes, whatever roles the node passes through; a rejected pre-vote response with a higher term makes the receiver a follower of that term; inside the check-quorum lease any number of higher-term non-transfer (pre-)vote requests leaves the state identical (trace form); a leader never changes term on messages of its own or a lower term, and steps down only at an election-timeout boundary with no quorum recently active (trace form); a majority follower whose leader's heartbeats arrive on schedule keeps term, vote, leader and lease whatever (pre-)vote requests arrive in between. One requested statement is REFUTED with a witness (a Candidate/PreCandidate receiver of a pre-vote request may abandon its campaign through the commit fast-forward when that reveals an unapplied membership change; term and vote still unchanged; intentional per the source comment).",
-    "the cluster-level clause as one multi-node theorem (while a leader and a majority exchange heartbeats on schedule no behaviour of the remaining nodes makes that leader step down or the majority's terms change) is not proved: its per-node halves are (lease, leader window, follower window), but not that 'quiet'/'on schedule' inputs are what a partitioned node / a majority member actually receive; it is exercised by the prevote monitor's dedicated isolate/campaign/crash/rejoin scenario in the search.",
+    "Props/C16.v (68 pinned statements, every node state and every message unless said otherwise): handling a pre-vote request never changes term or vote (all paths), with the four paths given exactly (lease drop; lower-term explicit reject; grant = one response, no vote recorded, election timer not reset, role and leader untouched; reject + commit fast-forward); the pre-vote campaign leaves term and vote unchanged and queues exactly one MsgRequestPreVote (term+1, last index/term) per other voter; a COMPLETE case analysis of when the term changes over one step for every role and message (unchanged | raised by one by the node itself in three listed situations | a higher message term adopted, for every type except pre-vote requests, granted pre-vote responses and lease-dropped requests), read off for a PreCandidate, and in trace form: over any sequence of steps and ticks that are 'quiet' in the states they meet (no adoptable higher term, no transfer, no pre-vote quorum) the term never changes, whatever roles the node passes through; a rejected pre-vote response with a higher term makes the receiver a follower of that term; inside the check-quorum lease any number of higher-term non-transfer (pre-)vote requests leaves the state identical (trace form); a leader never changes term on messages of its own or a lower term, and steps down only at an election-timeout boundary with no quorum recently active (trace form); a majority follower whose leader's heartbeats arrive on schedule keeps term, vote, leader and lease whatever (pre-)vote requests arrive in between. CLUSTER-LEVEL WINDOW (clause 8, model-level composition over a lock-step star schedule with arbitrary adversarial deliveries before each round): from a start state in which a check-quorum leader L of term t and followers Fs forming a quorum with it exchange heartbeats on schedule (timing hypotheses stated on the model's fields), for ANY number of rounds and ANY lists of adversarial messages from outsiders - pre-vote requests of any term and context, anything with a term below t, anything non-leader with a term at most t - L stays leader of t and every F stays a follower of t with leader L and unchanged vote, still inside its lease (C16_window_rounds_safe); every window member answers a higher-term non-transfer (pre-)vote request with 'state unchanged, nothing queued' (C16_window_members_deny), which is why outsiders cannot gather a pre-vote quorum. One requested statement is REFUTED with a witness (a Candidate/PreCandidate receiver of a pre-vote request may abandon its campaign through the commit fast-forward when that reveals an unapplied membership change; term and vote still unchanged; intentional per the source comment).",
+    "the window theorem is against a SPECIFIED adversary class and a lock-step schedule inside the majority: the closing step (outsiders that never win a pre-vote only ever emit messages of that class, as a closed-cluster theorem including crash and restart) is proved per node but not composed over a network model; loss/delay inside the majority and leadership transfer inside the window are excluded. The closed-cluster behaviour is exercised by the prevote monitor's isolate/campaign/crash/rejoin scenario in the search.",
     "DESIGN.md section 7, C16",
     "Theorems: Props/C16.v over M/Raft.v (per step, per tick, and over arbitrary input sequences). Tie: pointwise differential, projection hard+timers+vote traffic.")
 
@@ -229,8 +229,8 @@ SPECS["C15"] = node_spec(
 
 SPECS["C17"] = node_spec(
     "C17", ["transfer", "hard", "timers", "result", "msgs.other", "msgs.vote"], "transfer",
-    "Props/C17.v (35 pinned theorems, every node state and every input): a MsgTimeoutNow is queued only by a leader handling MsgAppendResponse or MsgTransferLeader, at most one per step, addressed to the pending transfer target whose matched index equals the leader's last index (every Raft step and every RawNode entry point); while a transfer is pending proposals and conf-change proposals return ProposalDropped with the state unchanged; the transfer timer: the tick at which election_elapsed reaches election_timeout clears the transfer, a leader step leaves (target, elapsed) alone, clears it, or starts a new transfer with elapsed 0, and any interleaving of RawNode calls containing enough ticks ends with no transfer pending (from every state reached from RawNode::new); every reset and the removal of the target from the voters clears it; requests naming an unknown node, a learner, the current target or the leader itself are exact no-ops / cancel only; the forced vote skips pre-vote, carries CAMPAIGN_TRANSFER and bypasses the check-quorum lease; a follower obeys MsgTimeoutNow only if promotable.",
-    "of the cluster-level clause the safety half is pinned from the abstract protocol (whoever leads a term - a transfer target included - holds every commit point of earlier terms with identical entries and is the only leader of its term: C17_new_leader_holds_committed, C17_one_leader_per_term; fixed configuration); that the transfer COMPLETES in a healthy cluster (liveness) is not a theorem; expiry under an unbounded stream of new transfer requests is excluded by hypothesis.",
+    "Props/C17.v (47 pinned theorems, every node state and every input): a MsgTimeoutNow is queued only by a leader handling MsgAppendResponse or MsgTransferLeader, at most one per step, addressed to the pending transfer target whose matched index equals the leader's last index (every Raft step and every RawNode entry point); while a transfer is pending proposals and conf-change proposals return ProposalDropped with the state unchanged; the transfer timer: the tick at which election_elapsed reaches election_timeout clears the transfer, a leader step leaves (target, elapsed) alone, clears it, or starts a new transfer with elapsed 0, and any interleaving of RawNode calls containing enough ticks ends with no transfer pending (from every state reached from RawNode::new); every reset and the removal of the target from the voters clears it; requests naming an unknown node, a learner, the current target or the leader itself are exact no-ops / cancel only; the forced vote skips pre-vote, carries CAMPAIGN_TRANSFER and bypasses the check-quorum lease; a follower obeys MsgTimeoutNow only if promotable. COMPLETION (three voters, lock-step full-mesh schedule, all queues empty, equal logs, no timer due within three rounds): after the transfer request and three rounds the target is Leader of term+1 with its log = the old log plus its no-op (hence every entry the old leader had), the old leader and the third voter are Followers of term+1 that voted for the target, the transfer is cleared; after a fourth round both know the target as leader (C17_transfer_completes, C17_transfer_completes_log, with the per-node steps pinned: transfer_starts, target_campaigns, voter_grants_forced, candidate_wins, follower_adopts_leader).",
+    "of the cluster-level clause the safety half is pinned from the abstract protocol (whoever leads a term - a transfer target included - holds every commit point of earlier terms with identical entries and is the only leader of its term: C17_new_leader_holds_committed, C17_one_leader_per_term; fixed configuration); completion is proved for exactly three voters under the lock-step schedule only (not for asynchronous, lossy or interleaved schedules, nor for lagging logs); expiry under an unbounded stream of new transfer requests is excluded by hypothesis.",
     "DESIGN.md section 7, C17",
     "Theorems: Props/C17.v over M/Raft.v, M/RawNode.v. Tie: pointwise differential, projection transfer+hard+timers+results+vote/other traffic.")
 
